@@ -229,8 +229,8 @@ Definition row_s2p (g : pfun) (p : panel) : res (list series) :=
 (* ------------------------------------------------------------------------------------------ *)
 (* Imputer on a single series with missing values (None).                                     *)
 
-Definition oq := option Q.
-Definition oseries := list oq.
+Notation oq := (option Q).
+Notation oseries := (list (option Q)).
 Fixpoint ffill_from (prev : oq) (l : oseries) : oseries :=
   match l with
   | [] => []
